@@ -504,10 +504,9 @@ PROPS = {
     },
     "C01": {
         "lean_modules": ["Dbg.Props.C01"],
-        "theorems": ["Compress.C01_from_reads", "Compress.C01_partition", "Compress.C01_node_assembly", "Compress.C01_nodes_are_id_paths", "Compress.C01_ids_partition",
+        "theorems": ["Compress.C01_steps_recorded", "Compress.C01_from_reads", "Compress.C01_partition", "Compress.C01_node_assembly", "Compress.C01_nodes_are_id_paths", "Compress.C01_ids_partition",
                      "Compress.C01_walk_no_panic", "Compress.compress_components_concrete", "Walk.compress_components"],
-        "partial": ["recorded-steps clause in its bit-level form (stepsOK: both k-mers of every node-internal step record the extension) - "
-                    "evaluated on the crate's nodes; the from-slice / no-exts wrappers are tied by correspondence only"],
+        "partial": ["the from-slice / no-exts wrappers are tied by correspondence only (they build the table and call the function modelled here)"],
         "n_quick": 3000, "n_thorough": 200000,
         "nontrivial": _c01_nontrivial, "tags": _c01_tags, "shrink": _table_shrink,
         "rule": _C01_RULE,
@@ -529,9 +528,8 @@ PROPS = {
     },
     "C03": {
         "lean_modules": ["Dbg.Props.C03"],
-        "theorems": ["Graph.findLink_sound", "Graph.searchKmer_sound", "Graph.searchKmer_complete", "Graph.findLink_exts_irrelevant"],
-        "partial": ["edges_symmetric, edges_eq_observed ((K+1)-mers of the reads), pruning exactness (three functions), seqOfPath_kmers, "
-                    "maxPath_walk: executable predicates evaluated on the crate's answers; theorems not yet written; max_path_beam is not modelled"],
+        "theorems": ["Graph.C03_prune_exact", "Graph.C03_valid_exts_exact", "Graph.C03_edges_justified", "Graph.C03_walk_sequence", "Graph.C03_maxPath_walk", "Graph.C03_maxPath_sequence", "Graph.edge_overlap", "Graph.findLink_sound", "Graph.searchKmer_sound", "Graph.searchKmer_complete", "Graph.findLink_exts_irrelevant"],
+        "partial": ["edges_symmetric and adjacency set = (K+1)-mers of the reads (edges_eq_observed): executable predicates evaluated on the crate's answers for graphs built from reads; they need the node-level reciprocity invariant of compressed graphs, not yet carried from C01/C02 to the finished graph; max_path_beam is not modelled"],
         "n_quick": 3000, "n_thorough": 200000,
         "nontrivial": lambda toks, impl: impl != "panic" and (toks[1] != "graph" or toks[4].count(",") >= 1), "tags": _c03_tags,
         "rule": "requests: `graph K stranded nodes probes valid scores walk` on graphs produced by the real pipeline (filter -> prune -> compress -> "
